@@ -783,8 +783,9 @@ class Compiler:
 
             jump_to_body: List[Tuple[int, int]] = []
             default_jump = None
+            default_index = None
 
-            # Compile case tests
+            # Compile case tests; 'default' is taken only after every test failed
             for i, case in enumerate(node.cases):
                 if case.test:
                     self._emit(OpCode.DUP)
@@ -793,9 +794,11 @@ class Compiler:
                     pos = self._emit_jump(OpCode.JUMP_IF_TRUE)
                     jump_to_body.append((pos, i))
                 else:
-                    default_jump = (self._emit_jump(OpCode.JUMP), i)
+                    default_index = i
 
-            # Jump to end if no match
+            # No test matched: jump to the default clause, or to the end
+            if default_index is not None:
+                default_jump = (self._emit_jump(OpCode.JUMP), default_index)
             jump_end = self._emit_jump(OpCode.JUMP)
 
             # Case bodies
